@@ -35,4 +35,5 @@ def jobs(tier):
             mk('C01', 'par', S.parallel_handlers(('A', 'B')), max_paths=8000),
         ]
     out += matrix_jobs('C01', 'm1', tier)
+    out += matrix_jobs('C01', 'm2', tier)
     return flat(out)
